@@ -557,6 +557,11 @@ func (e *Exec) stub(fn *ssa.Function, full string, args []Value) (Value, bool) {
 	case "log.New":
 		e.objSeq++
 		return &PtrV{obj: e.newObj(&OpaqueV{kind: "logger", id: e.objSeq}, "logger")}, true
+	case "fmt.Errorf":
+		e.objSeq++
+		return &IfaceV{t: types.Typ[types.UnsafePointer], v: &OpaqueV{kind: "error", id: e.objSeq, data: args[0]}}, true
+	case "errors.Is":
+		return e.valueEq(args[0], args[1]), true
 	case "errors.New":
 		e.objSeq++
 		return &IfaceV{t: types.Typ[types.UnsafePointer], v: &OpaqueV{kind: "error", id: e.objSeq, data: args[0]}}, true
